@@ -419,6 +419,13 @@ V("DTA-infer-dtype-uint16-threshold", "C07", "DTA",
 V("IS1-int-before-bool", "C07", "IS1",
   ("writer.py", "    if isinstance(value, bool) or isinstance(value, np.bool_):\n        return Boolean(value)\n    if isinstance(value, int):\n        return to_int_property_value(value)\n",
    "    if isinstance(value, int):\n        return to_int_property_value(value)\n    if isinstance(value, bool) or isinstance(value, np.bool_):\n        return Boolean(value)\n"))
+V("IS1-np-bool-after-number-group", "C07", "IS1",
+  ("writer.py", "    if isinstance(value, np.number):\n        return numpy_data_types[value.dtype](value)\n", "    if isinstance(value, (np.number, np.bool_)):\n        return numpy_data_types[value.dtype](value)\n"))
+V("IS1-datetime64-as-string", "C07", "IS1",
+  ("writer.py", "    if isinstance(value, np.datetime64):\n        return TimeStamp(value)\n", "    if isinstance(value, np.datetime64):\n        return String(str(value))\n"))
+V("IS1-benign-grouped-tests", "C07", None,
+  ("writer.py", "    if isinstance(value, datetime):\n        return TimeStamp(value)\n    if isinstance(value, np.datetime64):\n        return TimeStamp(value)\n",
+   "    if isinstance(value, (datetime, np.datetime64)):\n        return TimeStamp(value)\n"))
 V("IS1-float-as-single", "C07", "IS1",
   ("writer.py", "    if isinstance(value, float):\n        return DoubleFloat(value)", "    if isinstance(value, float):\n        return SingleFloat(value)"))
 V("NK1-total-microseconds-via-float", "C12", "NK1",
